@@ -38,7 +38,7 @@ D4_TEXT = ("D4 default_role is copied into a session's active role at connect on
            "never issued SET SERVER ROLE")
 
 GEN_BASE = {"host": "127.0.0.1", "port": 6432, "admin_username": "admin", "admin_password": "adminpw",
-            "connect_timeout": 300, "healthcheck_timeout": 500, "healthcheck_delay": 30000, "shutdown_timeout": 1500,
+            "connect_timeout": 2000, "healthcheck_timeout": 500, "healthcheck_delay": 30000, "shutdown_timeout": 1500,
             "ban_time": 60, "idle_timeout": 600000, "server_lifetime": 86400000, "worker_threads": 2,
             "validate_config": False, "log_client_connections": False, "log_client_disconnections": False}
 POOL_BASE = {"pool_mode": "transaction", "default_role": "any", "query_parser_enabled": False,
@@ -243,7 +243,7 @@ def valid_kinds():
     K.append(("general-idle_timeout-lowered", "T", mut("A", ident, idle_client_in_transaction_timeout=LOW), 0, {"idle": IDLE}))
     K.append(("general-idle_timeout-raised", "S", mut("A", ident, idle_client_in_transaction_timeout=HIGH), 0, {"idle": IDLE}))
     K.append(("general-idle_timeout-removed", "S", mut("A", ident), 1, {"idle": IDLE}))
-    K.append(("general-connect_timeout", "A", mut("A", ident, connect_timeout=350), 0, {"idle": 300}))
+    K.append(("general-connect_timeout", "A", mut("A", ident, connect_timeout=2500), 0, {"idle": 300}))
     K.append(("general-healthcheck", "A", mut("A", ident, healthcheck_timeout=400, healthcheck_delay=20000), 0, {"idle": 300}))
     K.append(("general-ban_time+idle-lowered", "T", mut("A", ident, ban_time=5, idle_client_in_transaction_timeout=LOW), 2, {"idle": IDLE}))
     K.append(("idle-lowered+pa-server-replaced", "T", mut("A", servers, idle_client_in_transaction_timeout=LOW), 0, {"idle": IDLE}))
@@ -511,7 +511,10 @@ class Script:
         self.keeps = set()     # clients that checked out a server of a session-mode pool: they keep it until they leave
 
     def mark(self, extra_ms=0):
-        self.steps.append({"op": "sleep", "ms": 12 + extra_ms})
+        if extra_ms:
+            self.steps.append({"op": "sleep", "ms": extra_ms})
+        # settled point: no server connection opened / closed for 12 ms (pools replaced by a reload close theirs asynchronously)
+        self.steps.append({"op": "settle", "quiet_ms": 12, "timeout_ms": 600})
         self.steps.append({"op": "reload_state", "label": "op%d" % (len(self.ops) - 1)})
 
     def sql(self, c):
@@ -1822,6 +1825,7 @@ def check(run):
     stats = {"validated": 0, "steps": 0, "obs": {}}
     distinct, pairs = set(), set()
     first_dis, f12_seen, kinds = None, [], {}
+    unreproduced = []
     known = {e.get("id"): e for e in vlib.known_findings(PROP)}
     for case, script, res, model in zip(cases, scripts, results, models):
         run.cov["evaluations"] += 1
@@ -1834,6 +1838,17 @@ def check(run):
             run.violation("counterexample", "C14 monitor %s on the implementation: %s" % (sent, v), {"input": slim(case), "monitor": [sent, v], "case": case_key(case)})
         if f12:
             f12_seen.append((case, f12[0]))
+        if dis:
+            # a disagreement is reported only if it shows again on an immediate re-run of the same case (2 of 2)
+            scn2, script2 = scenario(case)
+            res2 = W.run_scenario(wire, scn2, timeout=120)
+            st2 = {"validated": 0, "steps": 0, "obs": {}}
+            _, _, dis2 = evaluate(run, case, script2, res2, model, st2)
+            if not dis2:
+                unreproduced.append({"case": case_key(case), "disagreement": dis[:300]})
+                dis = None
+            else:
+                dis = "%s  [re-run: %s]" % (dis, dis2)
         if dis and first_dis is None:
             first_dis = (case, dis, model)
     # F12 and D2 are repaired in /repo: their scenarios are regression inputs now, any hit is a violation
@@ -1862,6 +1877,8 @@ def check(run):
     elif e is not None and e.get("status") == "known":
         run.violation("tie-broken", "known finding %s is listed but the old session of ps-default_role-primary-to-replica follows the new default_role: update known_findings.jsonl" % D4,
                       {"correspondence": "D4 class vs wire run"}, found_input=False)
+    run.cov["unreproduced_disagreements"] = len(unreproduced)
+    run.cov["unreproduced_disagreements_list"] = unreproduced[:10]
     run.cov["traces_validated_against_impl"] = stats["validated"]
     run.cov["distinct_nontrivial"] = len(distinct)
     run.cov["rule"] = ("old file (2 bases x 4 renderings) x new file: %d valid kinds (identical, reformatted, defaults written out, general-only, server replaced/added/swapped, "
